@@ -104,6 +104,17 @@ TEXT["C03"] = dict(
     design_ref="5 (C03)",
 )
 
+TEXT["C05"] = dict(
+    category="fault_enumeration",
+    technique="seeded scenarios + complete single-fault enumeration over the dynamic hook-invocation sequence of each scenario, plus sampled fault pairs",
+    text="Per run one scenario (suspended generated program with generator-based managers and exit stacks / parked thread / suspended, unstarted or dead greenlet / synthetic items with tuple, list, "
+    "iterator and yields_frames unwrappers / arbitrary objects incl. hostile __repr__/__eq__). The fault-free extraction records every dynamic invocation of the eight hook seams; an Exception is then injected at every "
+    "position in turn and at sampled pairs. extract must return a Stack; each injected exception object must be found in the error of the Stack that was being built (nearest extract_child frame at injection), alone or inside an "
+    "ExceptionGroup; frames outward of the failing frame must equal the fault-free ones; the frame whose elaborate_frame failed stays and is un-hidden; str/format/format_flat/as_stdlib_summary must work.",
+    note="Trusted: wrappers installed on the module attributes through which extract_iter / the glue reach the hooks; single faults are complete per scenario (scenarios with > 80 invocations: first 40 + 40 sampled), scenarios themselves are sampled.",
+    design_ref="5 (C05)",
+)
+
 PENDING_REASON = "check not built yet in this round (work in progress; see DESIGN.md section 5 for the planned simulation)"
 
 ALL = ["C%02d" % i for i in range(1, 21)]
